@@ -232,3 +232,10 @@ bm_h!(c11_run_oversize_timer_s0, 10, 0, [Ev::Tx(12), Ev::Timer, Ev::Tx(3), Ev::T
 bm_h!(c11_run_boundary_s1, 8, 1, [Ev::Tx(7), Ev::Tx(1), Ev::Tx(8), Ev::Tx(9)]);
 // only empty transactions pending when the timer fires
 bm_h!(c11_run_only_empty_s0, 10, 0, [Ev::Tx(0), Ev::Tx(0), Ev::Timer]);
+// thorough tier: the other select start index for each schedule, and further schedules
+bm_h!(c11_run_oversize_timer_s1, 10, 1, [Ev::Tx(12), Ev::Timer, Ev::Tx(3), Ev::Tx(2), Ev::Timer]);
+bm_h!(c11_run_boundary_s0, 8, 0, [Ev::Tx(7), Ev::Tx(1), Ev::Tx(8), Ev::Tx(9)]);
+bm_h!(c11_run_only_empty_s1, 10, 1, [Ev::Tx(0), Ev::Tx(0), Ev::Timer]);
+bm_h!(c11_run_timer_first_s0, 6, 0, [Ev::Timer, Ev::Tx(1), Ev::Timer, Ev::Tx(5), Ev::Tx(1)]);
+bm_h!(c11_run_many_small_s1, 4, 1, [Ev::Tx(1), Ev::Tx(1), Ev::Tx(1), Ev::Tx(1), Ev::Tx(1), Ev::Timer]);
+bm_h!(c11_run_batch_size_one_s0, 1, 0, [Ev::Tx(0), Ev::Tx(1), Ev::Tx(2)]);
